@@ -75,7 +75,8 @@ def run_tlc(module, cfg, *, workers=1, env=None, timeout=3600, simulate=None, de
     """Run TLC on spec/<module>.tla with spec/<cfg>. Returns TLCResult; raises TLCError on machinery failure."""
     cwd = cwd or SPEC_DIR
     meta = tempfile.mkdtemp(prefix="tlcmeta-")
-    jopts = [f"-Xmx{heap_gb}g", "-XX:+UseParallelGC", f"-XX:ParallelGCThreads={max(2, min(8, workers))}"]
+    jopts = [f"-Xmx{heap_gb}g", "-XX:+UseParallelGC", f"-XX:ParallelGCThreads={max(2, min(8, workers))}",
+             f"-Djava.io.tmpdir={meta}"]                       # TLC leaves an empty tlc-NNN directory per run there
     if dfs:
         jopts.append("-Dtlc2.tool.queue.IStateQueue=StateDeque")
     cmd = ["java"] + jopts + ["-cp", JAR, "tlc2.TLC", "-workers", str(workers), "-metadir", meta,
